@@ -56,7 +56,7 @@ func c08Run(tier string, seed uint64, i int) []h.Result {
 					// listed input by input, so a violation is identified by (operand form, what Go says, what the builder did):
 					// a different form, a different Go verdict class or a different wrong behaviour is still reported.
 					form := strings.ReplaceAll(strings.ReplaceAll(stmt, root, "T"), "."+name, ".NAME")
-					gov := "accepts"
+					gov := "accepts" + c08GoSelection(o, name)
 					if !o.SrcValid {
 						gov = "rejects(" + selErrClass(firstN(o.SrcErrs, 1)) + ")"
 					}
@@ -73,6 +73,31 @@ func c08Run(tier string, seed uint64, i int) []h.Result {
 		}
 	}
 	return out
+}
+
+// c08GoSelection describes what Go selects: kind of member and embedding depth (0 = declared on the operand's own type).
+// It is part of the identity of a recorded finding: the recorded lookup defects need the member Go designates to be a
+// promoted one (depth >= 1); a wrong answer for a member the type declares itself is a different violation.
+func c08GoSelection(o *drive.Outcome, name string) string {
+	if o.Src == nil || o.Src.Info == nil {
+		return ""
+	}
+	best := ""
+	for sel, s := range o.Src.Info.Selections {
+		if sel.Sel.Name != name {
+			continue
+		}
+		k := "field"
+		if _, ok := s.Obj().(*types.Func); ok {
+			k = "method"
+		}
+		if len(s.Index()) == 1 {
+			best = fmt.Sprintf(" a %s declared on the type itself", k)
+		} else {
+			best = fmt.Sprintf(" a promoted %s", k)
+		}
+	}
+	return best
 }
 
 func judgeC08(key string, o *drive.Outcome, name string) h.Result {
